@@ -39,7 +39,8 @@ CFG = {
         "one case = one history (6-36 operations over <= 6 keys, clock reading per operation) run on the real cache(s); "
         "memory case non-trivial = at least one Get hit and at least one Get miss on a previously set key or one already-exists; "
         "redis case non-trivial = the history is in the restricted class (harness-side ledger) and has a hit and a miss/already-exists "
-        "(redis-only racing case: restricted, a hit, at least two racing callers); "
+        "(redis-only racing case: restricted, a hit, at least two racing callers; bystander case = a second cache with another prefix on the "
+        "same redis sets a key before and reads it after the history, non-trivial when the cache under test was cleared in between); "
         "distinct = distinct Coq case term (history + observed results [+ command stream])"
     ),
     "trusted": [
